@@ -441,7 +441,7 @@ def _work(job):
 
 
 def run(ctx: Ctx) -> Result:
-    depth = ctx.pick(6, 8)
+    depth = ctx.pick(6, 10)
     names = ctx.pick(['a', 'b'], ['a', 'run2b'])
     base = ctx.scratch / 'c48'
     if base.exists():
@@ -477,9 +477,18 @@ def run(ctx: Ctx) -> Result:
                 jid += 1
         if not items:
             break
-        parts = pmap(
-            _work, [(str(base), c) for c in chunks(items, ctx.workers * 2)],
-            ctx.workers)
+        if len(items) <= 40:
+            # small level: not worth forking a pool (inline, same code)
+            home0 = os.environ['HOME']
+            try:
+                parts = [_work((str(base), items))]
+            finally:
+                os.environ['HOME'] = home0
+        else:
+            parts = pmap(
+                _work,
+                [(str(base), c) for c in chunks(items, ctx.workers * 2)],
+                ctx.workers)
         results = sorted((r for p in parts for r in p),
                          key=lambda r: r['jid'])
         new_frontier = []
@@ -521,14 +530,17 @@ def run(ctx: Ctx) -> Result:
         frontier = new_frontier
     shutil.rmtree(base, ignore_errors=True)
 
-    for k in 'INURC':
-        if not stats.get(k, {}).get('ok'):
-            raise HarnessError(f'operation {k} never succeeded: {stats}')
-    if max_handed < 3:
-        raise HarnessError('never got beyond run2')
-    for k, v in seams.items():
-        if not v:
-            raise HarnessError(f'seam never exercised: {k}')
+    if not vios:
+        # vacuity guards (violating states are not extended, so these only
+        # make sense on a clean run)
+        for k in 'INURC':
+            if not stats.get(k, {}).get('ok'):
+                raise HarnessError(f'operation {k} never succeeded: {stats}')
+        if max_handed < 3:
+            raise HarnessError('never got beyond run2')
+        for k, v in seams.items():
+            if not v:
+                raise HarnessError(f'seam never exercised: {k}')
 
     sample_ids = sorted(info)[:: max(1, len(info) // 8)][:8]
     cov = {
